@@ -850,3 +850,39 @@ class _:
     }
     may_raise = ['Exception']
     modifies = ['self.stats.pkts_sent', 'self.stats.bytes_sent']
+
+
+# ------------------------------------------------------------------------------------------ "all handler events run on one thread"
+@lemma('handler-events-are-raised-only-from-the-server-thread', props=['C10'])
+def _one_thread(E):
+    """structural, computed from the ASTs of the current tree: every call of handler.starting/connect/handle_message/disconnect/
+    update/shutdown sits in UdpServerThread.run or in ServerContext.onConnect/onDisconnect; those two are called only from
+    run, from ServerContext._onConnect and (through it) from the connection methods run calls; the reactor-side entry points
+    (TwistedServer.datagramReceived, _UdpServer.run) only append to the thread's queue (their own contracts).  Thread
+    interleavings themselves are not modelled."""
+    import ast
+    EVENTS = {'starting', 'connect', 'handle_message', 'disconnect', 'update', 'shutdown'}
+    raised_in = set()
+    callers = {}
+    for mod in ('server', 'context', 'connection', 'twisted', 'client', 'handler'):
+        m = E.ip.repo.module(mod)
+        if m is None:
+            continue
+        funcs = [(f.qualname, f.node) for f in m.functions.values()]
+        for c in m.classes.values():
+            funcs += [(f.qualname, f.node) for f in c.methods.values()]
+        for q, node in funcs:
+            for n in ast.walk(node):
+                if isinstance(n, ast.Call) and isinstance(n.func, ast.Attribute):
+                    f = n.func
+                    if f.attr in EVENTS and isinstance(f.value, ast.Attribute) and f.value.attr == 'handler':
+                        raised_in.add(q)
+                    if f.attr in ('onConnect', 'onDisconnect', '_onConnect'):
+                        callers.setdefault(f.attr, set()).add(q)
+    allowed_raise = {'server.UdpServerThread.run', 'context.ServerContext.onConnect', 'context.ServerContext.onDisconnect'}
+    allowed_callers = {'onConnect': {'context.ServerContext._onConnect'}, 'onDisconnect': {'server.UdpServerThread.run'},
+                       '_onConnect': {'connection.ServerClientConnection._recvChallengeResponse'}}
+    return {
+        'handler-methods-are-called-only-in-run-and-the-two-context-wrappers': raised_in <= allowed_raise and len(raised_in) > 0,
+        'the-context-wrappers-are-reached-only-from-the-server-loop': all(callers.get(k, set()) <= v for k, v in allowed_callers.items()),
+    }
